@@ -100,11 +100,29 @@ class Condition(Notification):
 
 class Connective(Condition):
     """Logical connection of sub-conditions"""
-    __slots__ = ('_children',)
+    __slots__ = ('_children', '_observed')
 
     def __init__(self, *conditions: Condition):
         super().__init__()
         self._children = conditions
+        self._observed = False
+
+    def __subscribe__(self, waiter: Coroutine, interrupt: CoreInterrupt):
+        super().__subscribe__(waiter, interrupt)
+        # Nothing triggers a Connective by itself: as long as there are subscribers,
+        # e.g. of ``until(a | b)`` or an enclosing ``a & (b | c)``, observe the
+        # operands and notify the subscribers once the connection holds.
+        if self._waiting and not self._observed:
+            self._observed = True
+            __USIM_STATE__.loop.schedule(self._observe())
+
+    async def _observe(self):
+        try:
+            while self._waiting:
+                await self.__await_children__()
+                self.__trigger__()
+        finally:
+            self._observed = False
 
     def __await__(self) -> Generator[AnyT, None, bool]:
         return (yield from self.__await_children__().__await__())  # noqa: B901
